@@ -6,6 +6,7 @@ from analysis import chessref as R
 from analysis.cfg import cfg_of
 from analysis.effects import subterms, strip_casts, index_chain
 
+THOROUGH_CONFIGS = ['release', 'nobmi2', 'movegen-alone']
 LEVEL = "other"
 DECIDED = ("Writer (Display for Board, Debug for CastleRights) and reader (parse_fen and its helpers) are extracted as tables/emit sequences and compared field by field: "
            "R1 piece letters: PIECES[colour][piece] and parse_piece are inverse bijections on 12 letters, and the writer indexes the table with the (colour, piece) it found on the square; "
